@@ -28,13 +28,16 @@ package udp
 //@ ghost global dispN mathint
 //@ ghost global dispBuf mathint
 //@ ghost global lastConn mathint
+//@ ghost global filterOk bool
 
 //@ func (l *listener) newConn(rAddr net.Addr) (c *Conn)
 //@   ensures c != nil && fresh(c) && c.listener == l && c.rAddr == rAddr && c.buffer != nil && c.doneCh != nil && !closed(c.doneCh)
 
 //@ func (l *listener) getConn(raddr net.Addr, buf []byte) (c *Conn, ok bool, err error)
 //@   requires raddr != nil && l.acceptCh != nil
-//@   modifies lastConn
+//@   modifies lastConn, filterOk
+//@   ghost after dyn#1: filterOk = result$
+//@   ensures [filtered] !atlock(addrStr[ref(raddr)] in l.conns) && l.acceptFilter != nil && !filterOk ==> !ok
 //@   ensures [last] lastConn == ref(c)
 //@   ensures [known] atlock(addrStr[ref(raddr)] in l.conns) ==> ok && err == nil && c == atlock(l.conns[addrStr[ref(raddr)]]) && sent(l.acceptCh) == atlock(sent(l.acceptCh)) &&
 //@            (addrStr[ref(raddr)] in l.conns) && l.conns[addrStr[ref(raddr)]] == c
@@ -48,7 +51,8 @@ package udp
 // a datagram is written once, to the buffer of the connection registered for its sender, and to no other
 //@ func (l *listener) dispatchMsg(addr net.Addr, buf []byte)
 //@   requires addr != nil && l.acceptCh != nil
-//@   modifies lastConn, dispN, dispBuf
+//@   modifies lastConn, filterOk, dispN, dispBuf
+//@   ensures [once] calls(Write) <= 1
 //@   ensures [atmost] dispN == old(dispN) || dispN == old(dispN) + 1
 //@   ensures [to] dispN == old(dispN) + 1 ==> lastConn != 0 && dispBuf == ref(ptr(lastConn, *Conn).buffer) && addrStr[ref(ptr(lastConn, *Conn).rAddr)] == addrStr[ref(addr)]
 //@   ensures [each] lastConn != 0 ==> dispN == old(dispN) + 1
